@@ -208,6 +208,16 @@ def analyse(prog, chk, cname):
                         chk.ob("R20.1-arm", fn, "failed %s at %s leads to a failing return" % (e.callee_name(), fn.loc(e.iid)) + tag,
                                ok, loc=fn.loc(p.end_iid), detail="returns %s" % T.show(p.ret, fn),
                                path=None if ok else p, key="R20.1-arm %s" % fn.sname)
+            if p.kind == "ret" and retvoid:
+                # a function that returns nothing cannot tell its caller that an allocation failed
+                for e in p.calls():
+                    if e.callee_name() not in EXT_ALLOC:
+                        continue
+                    if outcome(p, e, EXT_ALLOC[e.callee_name()]) is False:
+                        nalloc += 1
+                        chk.ob("R20.1-arm", fn, "failed %s at %s leads to a failing return" % (e.callee_name(), fn.loc(e.iid)) + tag, False,
+                               loc=fn.loc(p.end_iid), detail="%s returns void: the failed allocation cannot be reported, the caller carries "
+                               "on as if the step had been performed" % fn.sname, path=p, key="R20.1-arm %s" % fn.sname)
             # ---------------- R20.2 (success closed under failure) -------------------------------
             if p.kind == "ret" and not retvoid:
                 succ = []
